@@ -128,7 +128,64 @@ def _dataclass_values():
             c.__qualname__ = c.__name__
             g[c.__name__] = c
     P, P3 = g['DPoint'], g['DPoint3']
-    return [P3(1, 2, 3, ['a']), P(1, 2), [P3(4, 5, 6, ['b', 'c']), P(7)], P3(1)]
+    if 'DRec' not in g:
+        @dataclasses.dataclass
+        class DRec:
+            payload: object = 0
+            retries: int = 3
+        DRec.__module__, DRec.__qualname__ = 'corpus_values', 'DRec'
+        g['DRec'] = DRec
+    R = g['DRec']
+    # a record whose field cannot be compared with its default (numpy-array-like): its printer fails and is contained - which must not
+    # change how later, well-behaved records of the same class are printed
+    return [P3(1, 2, 3, ['a']), P(1, 2), [P3(4, 5, 6, ['b', 'c']), P(7)], P3(1), R(Uncomparable(), 5), R(1, 4), [R(2), R(Uncomparable())], R()]
+
+
+class Uncomparable:
+    def __eq__(self, other):
+        raise TypeError('the truth value of a comparison with Uncomparable is ambiguous')
+
+    def __ne__(self, other):
+        raise TypeError('the truth value of a comparison with Uncomparable is ambiguous')
+
+    __hash__ = object.__hash__
+
+    def __repr__(self):
+        return 'Uncomparable()'
+
+
+class AutoViv:
+    """a lazy settings tree: reading a missing attribute creates a child node (so probing an INSTANCE for an attribute changes it)"""
+    _LEAVE = ('__verif_call__', '__deepcopy__', '__getstate__', '__setstate__', '__reduce_ex__', '__reduce__', '__getnewargs__', '__getnewargs_ex__',
+              '__wrapped__', '__iter__', '__len__', '__fspath__')
+
+    def __getattr__(self, name):
+        if name in AutoViv._LEAVE:
+            raise AttributeError(name)
+        child = AutoViv()
+        self.__dict__[name] = child
+        return child
+
+    def __repr__(self):
+        return 'AutoViv(%s)' % ', '.join(sorted(self.__dict__))
+
+
+def _attrs_values():
+    """with the attrs extra installed: an attrs instance, and objects without a printer whose attribute access has side effects"""
+    try:
+        import attr
+        import prettyprinter as pp
+        pp.install_extras(['attrs'], warn_on_error=False)
+    except Exception:
+        return []
+    g = globals()
+    if 'APoint' not in g:
+        APoint = attr.make_class('APoint', {'x': attr.ib(), 'y': attr.ib(default=0)})
+        APoint.__module__, APoint.__qualname__ = 'corpus_values', 'APoint'
+        g['APoint'] = APoint
+    t = AutoViv()
+    t.db.host
+    return [g['APoint'](1, 2), AutoViv(), t, [AutoViv(), g['APoint'](3)]]
 
 
 def corpus():
@@ -178,4 +235,4 @@ def corpus():
         # the fitting predicate, which asks the string for its width under the ribbon in force)
         ['k' * 50], {'key': 'v' * 45}, ('w' * 38, 1),
         {(2, 1): 'b', (1, 2): 'a', (1, 1): 'c'}, [{('b', 2): 0, ('a', 3): 1}], {(3,): 0, (1, 'x'): 1, (2, 5): 2},
-    ] + _responses() + _dataclass_values()
+    ] + _responses() + _dataclass_values() + _attrs_values()
